@@ -75,6 +75,15 @@ def run_c09(tier, seed):
                     want, conforms = None, False
                 except (TypeError, KeyError, AttributeError):
                     continue
+                # the selection rule used by the deductive contracts (spec.avro.SEL) against this independent oracle
+                try:
+                    sel = A.SEL(p, ns, d, opts)
+                except Exception as e:      # noqa
+                    sel = f"{type(e).__name__}"
+                if isinstance(d, tuple) and not opts.get("disable_tuple_notation") and len(d) != 2:
+                    pass
+                elif (sel if isinstance(sel, int) and sel >= 0 else None) != want:
+                    res.fail("branch_choice", f"the two statements of the rule disagree: SEL gives {sel}, the oracle {want}", case, "")
                 fo = io.BytesIO()
                 try:
                     schemaless_writer(fo, raw, wrap(d), **opts)
